@@ -741,6 +741,8 @@ func mentionsAny(e *SExpr, names []string) bool {
 
 func (g *Gen) checkFrame(env map[string]*Val, pos token.Pos, site string) {
 	allowed := g.frameTargetsEnv(env, false)
+	var all []string
+	var names []string
 	for _, comp := range sortedKeys(g.cur.heap) {
 		final := g.cur.heap[comp]
 		initial := g.compConst(comp, "0")
@@ -768,7 +770,13 @@ func (g *Gen) checkFrame(env map[string]*Val, pos token.Pos, site string) {
 			}
 			f = imp(and(append(conds, ex...)...), eq(sel(sel(final, fr), j), sel(sel(initial, fr), j)))
 		}
-		g.oblige("frame", comp+":"+site, f, pos, "modifies clause: component "+comp+" unchanged outside the declared locations")
+		all = append(all, f)
+		names = append(names, comp)
+	}
+	if len(all) > 0 {
+		// one obligation per return site: every changed component is unchanged
+		// outside the declared locations (each conjunct has its own witness)
+		g.oblige("frame", site, and(all...), pos, "modifies clause: unchanged outside the declared locations: "+strings.Join(names, ", "))
 	}
 }
 
